@@ -43,6 +43,8 @@ impl BsH {
                 BlockstoreEvent::Block { slot, block_info } => {
                     Ev::Block(slot.inner(), block_info.verif_hash().clone(), block_info.verif_parent().clone())
                 }
+                #[allow(unreachable_patterns)]
+                _ => continue,
             });
         }
         out
